@@ -30,7 +30,7 @@ CONSTANTS Kinds,        \* subset of {"trap", "simp", "romb", "gls", "glm"}
           NPoly,        \* plus NPoly salted coefficient vectors (degree <= 4)
           VLo, VHi,     \* scale / offset variants VLo..VHi
           Seed,
-          GLMax,        \* Gauss-Legendre: n in 1..GLMax
+          GLMin, GLMax, \* Gauss-Legendre: n in GLMin..GLMax
           GLAll         \* 1: every moment k <= 2n-1 ; 0: a salted selection
 
 VARIABLE c
@@ -140,6 +140,8 @@ KSel(n, iv) == {k \in 0..(2 * n - 1) :
                   /\ \/ GLAll = 1
                      \/ k \in {0, 1, 2, 3, n - 1, n, 2 * n - 3, 2 * n - 2, 2 * n - 1,
                                (Seed * 7 + n * 3) % (2 * n), (Seed * 11 + n * 5 + 1) % (2 * n)}}
+\* as an increasing sequence (built directly when every k is selected: sorting a large set is cubic in TLC)
+KSeq(n, iv) == IF GLAll = 1 THEN Force([i \in 1..(MinI(2 * n - 1, KCap(iv)) + 1) |-> i - 1]) ELSE Asc(KSel(n, iv))
 GLCase(cc) ==
   LET a == Intervals[cc.iv][1]  b == Intervals[cc.iv][2]
       m == MaxI(AbsI(a), AbsI(b)) IN
@@ -150,8 +152,8 @@ GLCase(cc) ==
   ELSE [kind |-> "glm", n |-> cc.n, a |-> a, b |-> b, mpow |-> m,
         \* allowance (tolc*(n+k+4)) * 2^-53 * (b-a) * max(|a|,|b|)^k
         tolc |-> 2,
-        ks |-> Asc(KSel(cc.n, cc.iv)),
-        es |-> LET ks == Asc(KSel(cc.n, cc.iv)) IN Force([i \in 1..Len(ks) |-> Moment(a, b, ks[i])])]
+        ks |-> KSeq(cc.n, cc.iv),
+        es |-> LET ks == KSeq(cc.n, cc.iv) IN Force([i \in 1..Len(ks) |-> Moment(a, b, ks[i])])]
 
 (****************************** state space ********************************)
 Grids == {S \in SUBSET Lattice : Cardinality(S) >= NMin /\ Cardinality(S) <= NMax}
@@ -163,9 +165,9 @@ Init ==
   \/ /\ "romb" \in Kinds
      /\ c \in [kind : {"romb"}, n : 1..3, v : VLo..VHi]
   \/ /\ "gls" \in Kinds
-     /\ c \in [kind : {"gls"}, n : 1..GLMax, iv : 1..Len(Intervals)]
+     /\ c \in [kind : {"gls"}, n : GLMin..GLMax, iv : 1..Len(Intervals)]
   \/ /\ "glm" \in Kinds
-     /\ c \in [kind : {"glm"}, n : 1..GLMax, iv : 1..Len(Intervals)]
+     /\ c \in [kind : {"glm"}, n : GLMin..GLMax, iv : 1..Len(Intervals)]
 Next == UNCHANGED c
 Spec == Init /\ [][Next]_c
 
